@@ -1,6 +1,7 @@
 /- GENERATED from lean/obligations.json by /verif/check. `lake env lean GoSquare/Audit.lean` prints the
    axioms every registered property theorem depends on; accepted: propext, Classical.choice, Quot.sound. -/
 import GoSquare.Properties.C01
+import GoSquare.Properties.C02
 import GoSquare.Properties.C03
 import GoSquare.Properties.C04
 import GoSquare.Properties.C05
@@ -26,6 +27,19 @@ import GoSquare.Properties.C20
 #print axioms GoSquare.buildLoop_spec
 #print axioms GoSquare.appendTx_spec
 #print axioms GoSquare.appendBlobTx_spec
+#print axioms GoSquare.C02.deconstruct_construct
+#print axioms GoSquare.C02.deconstruct_isSquareOf
+#print axioms GoSquare.C02.empty_roundtrip
+#print axioms GoSquare.C02.canon_of_marshal
+#print axioms GoSquare.deconstruct_parts
+#print axioms GoSquare.deconstructPfbs_spec
+#print axioms GoSquare.deconstructBlobs_spec
+#print axioms GoSquare.pfbOK_of_patched
+#print axioms GoSquare.construct_square
+#print axioms GoSquare.C09.parse_spec
+#print axioms GoSquare.C19.unmarshalIndexWrapper_marshal
+#print axioms GoSquare.C08.roundtrip
+#print axioms GoSquare.C20.lookup_returns_the_run
 #print axioms GoSquare.C03.build_wellformed
 #print axioms GoSquare.C03.construct_wellformed
 #print axioms GoSquare.C03.wellFormed_of_isSquareOf
